@@ -162,6 +162,47 @@ def _factors(item):
                 wanth = hv.astype(float) * N[u] / N[v]
                 if not np.all(np.abs(goth - wanth) <= 8 * EPS * np.maximum(np.abs(goth), np.abs(wanth))):
                     viol(f"{u}_to_{v}:wiring_group_level", f"user column vf_probe_{u}_hh: derived vf_probe_{v}_hh differs from the factor")
+    # user RULES registered under a new name (a reform variant next to the status quo), written as functools.wraps wrappers of
+    # internal rules: the variants in the other units are derived from the column of THAT name, not from the wrapped rule
+    import functools
+
+    cands = [t for t in nodes if t in functions and shadow.is_scalar_rule(functions[t]) and UNIT_RE.match(t) and not UNIT_RE.match(t).group("agg")
+             and functions[t].__annotations__.get("return") is float]
+    for t in [cands[i] for i in rng.choice(len(cands), min(3, len(cands)), replace=False)] if cands else []:
+        m = UNIT_RE.match(t)
+        u = m.group("u")
+        orig = functions[t]
+
+        def make(orig_):
+            @functools.wraps(orig_)
+            def g(*a, **k):
+                return orig_(*a, **k) + 50.0
+            return g
+
+        key = f"vfreform_{m.group('base')}{u}"
+        f2 = dict(functions)
+        f2[key] = make(orig)
+        tg = [key] + [f"vfreform_{m.group('base')}{v}" for v in "ymwd" if v != u] + [f"vfreform_{m.group('base')}{v}_hh" for v in "ymwd"]
+        try:
+            o3, miss = _request_all(env, df, params, f2, tg)
+        except Exception as e:  # noqa: BLE001
+            viol(f"user_rule:{t}:exception", f"rule {t} + 50 registered as {key}: requesting {tg[:4]} raises {type(e).__name__}: {str(e)[:150]}")
+            continue
+        if key not in o3.columns:
+            continue
+        src = o3[key].to_numpy().astype(float)
+        for v in "ymwd":
+            nm = f"vfreform_{m.group('base')}{v}"
+            if v == u or nm not in o3.columns:
+                continue
+            res["variants"] += 1
+            res["user_rule_variants"] = res.get("user_rule_variants", 0) + 1
+            got = o3[nm].to_numpy().astype(float)
+            want = src * N[u] / N[v]
+            if not np.all((np.abs(got - want) <= 8 * EPS * np.maximum(np.abs(got), np.abs(want))) | (np.isnan(got) & np.isnan(want))):
+                i = int(np.nanargmax(np.abs(got - want)))
+                viol(f"user_rule:{u}_to_{v}", f"user rule {key} (= {t} + 50) = {src[i]!r}: derived {nm} = {got[i]!r}, expected {want[i]!r}")
+                break
     res["sample"] = dict(date=item["date"], population=popgen.describe(df), names=res["names"][:10])
     return res
 
@@ -296,6 +337,7 @@ def summarize(results, tier, seed):
         inconclusive.append("no run with an input supplied in another unit")
     amp = [a for r in sup for a in r["amplified"]]
     cov = dict(
+        user_rule_variants_checked=sum(r.get("user_rule_variants", 0) for r in results if "_harness_error" not in r),
         evaluations=sum(r["variants"] for r in fac) + sum(r["runs"] for r in sup) + sum(r["calls"] for r in conv),
         distinct_nontrivial=len({(r["date"], n) for r in fac for n in r["names"]}) + len({(r["date"], *s) for r in sup for s in r["supplied"]}),
         rule="evaluation = one column variant compared by the factor oracle, one all-nodes run with an input supplied "
